@@ -27,6 +27,7 @@ type ownPod struct {
 	NoMatch bool
 	Shape   string // "S-i", "S-x", "other-i", "S-i-j"
 	Term    bool
+	NoIdent bool // pod-name label missing
 }
 
 func (p ownPod) String() string {
@@ -44,6 +45,9 @@ func (p ownPod) String() string {
 	}
 	if p.Term {
 		s += "/term"
+	}
+	if p.NoIdent {
+		s += "/noident"
 	}
 	return s
 }
@@ -168,6 +172,9 @@ func (c ownCase) Build(w *world.World) *world.State {
 		p.Name = podNameFor(pc.Shape, i)
 		p.UID = types.UID("uid-pod-" + p.Name)
 		p.Labels["statefulset.kubernetes.io/pod-name"] = p.Name
+		if pc.NoIdent {
+			delete(p.Labels, "statefulset.kubernetes.io/pod-name")
+		}
 		p.Spec.Hostname = p.Name
 		st.API.Pods[p.Name] = p
 	}
@@ -208,6 +215,9 @@ func ownPodCells() []ownPod {
 			for _, shape := range []string{"S-i", "S-x", "other-i", "S-i-j"} {
 				for _, term := range []bool{false, true} {
 					out = append(out, ownPod{Present: true, Owner: owner, NoMatch: nomatch, Shape: shape, Term: term})
+				}
+				if shape == "S-i" && !nomatch {
+					out = append(out, ownPod{Present: true, Owner: owner, Shape: shape, NoIdent: true})
 				}
 			}
 		}
